@@ -21,6 +21,7 @@ from props.c01 import (HEADER, KINDS, Recorder, assignments, build, fr, fr_mat, 
                        jsonable, mlit, noncanonical_csr, qlit, ref_ising, ref_qubo, report, shlit, snap, tools, unjson,
                        value_snap, variant_for, vlit)
 
+N_CVEC = 4     # non-binary vectors at which the container evaluators are observed (the conversions get all of them)
 PATTERNS = ["upper-triangular", "Upper-Triangular", "SYMMETRIC", "symmetric", "foo", ""]
 EXTRA_PATTERNS = ["UPPER-TRIANGULAR", "uPPER-tRIANGULAR", "Symmetric", "symmetric ", " symmetric", "upper_triangular",
                   "upper triangular", "uppertriangular", "sym", "SYMMETRICAL", "upper-triangula", "upper-triangular\n",
@@ -91,6 +92,8 @@ def run_case(inp, with_obs=True):
     if square:
         vectors = [[Fraction(t) for t in x] for x in assignments(n)] + [list(v) for v in inp.get("vectors", [])]
     binary = [all(t in (0, 1) for t in v) for v in vectors]
+    cvectors = vectors[: 2 ** n + N_CVEC] if square else []
+    obs["cvectors"] = cvectors
 
     def arr(v, isbin):
         if isbin and not inp.get("xfloat"):
@@ -169,7 +172,7 @@ def run_case(inp, with_obs=True):
             if cq != c:
                 rec.fail("oracle/container-const", f"container const_qubo = {cq}, given {c}", d2)
             snapC = (snap(C.Q), snap(C.J), snap(C.h))
-            for v, isbin in zip(vectors, binary):
+            for v, isbin in zip(cvectors, binary):
                 x = arr(v, isbin)
                 try:
                     s = qt.x_to_s(x)
@@ -197,7 +200,7 @@ def run_case(inp, with_obs=True):
                 if vci != ref_ising(Jd, hd, ci, v):
                     rec.fail("oracle/evaluate_Ising", f"container.evaluate_Ising({vfmt(v)}) = {vci}, exact value from its own J, h, c = {ref_ising(Jd, hd, ci, v)}",
                              {**d2, "x": v})
-            rec.calls += 3 * len(vectors)
+            rec.calls += 3 * len(cvectors)
             if (snap(C.Q), snap(C.J), snap(C.h)) != snapC:
                 rec.fail("purity/container-evaluators", "a container evaluator modified the container's Q / J / h", d2)
         if snap(A) != snapA:
@@ -223,9 +226,10 @@ def case_lit(inp, obs):
     conts = lit.lst([
         lit.tup(slit(pat),
                 res_lit(oc, lambda t: lit.tup(mlit(t[0]), qlit(t[1]), mlit(t[2]), vlit(t[3]), qlit(t[4]))),
-                lit.lst([lit.tup(vlit(v), qlit(a), qlit(b), qlit(c)) for v, a, b, c in (cevs or [])]))
+                lit.lst([lit.tup(qlit(a), qlit(b), qlit(c)) for _v, a, b, c in (cevs or [])]))
         for pat, oc, cevs in obs["conts"]])
-    return lit.tup(shlit(sh), mlit(M), qlit(inp["c"]), ou, os_, mevs, conts)
+    cvs = lit.lst([vlit(v) for v in obs["cvectors"]])
+    return lit.tup(shlit(sh), mlit(M), qlit(inp["c"]), ou, os_, mevs, cvs, conts)
 
 
 def run(ctx):
@@ -266,7 +270,7 @@ def run(ctx):
             for p in pats:
                 dist["pattern_class"][("other", "upper", "symmetric")[classify(p)]] += 1
             if n == m:
-                n_eval += (2 ** n + n_vec) * (1 + len(pats))
+                n_eval += (2 ** n + n_vec) + (2 ** n + min(n_vec, N_CVEC)) * len(pats)
                 dist["vectors"]["binary"] += 2 ** n
                 dist["vectors"]["non_binary"] += n_vec
         dist["shapes"][b["shape"]] = dist["shapes"].get(b["shape"], 0) + 1
@@ -332,7 +336,7 @@ def run(ctx):
                                      + ", ".join(f"model_container {sh} {slit(p)} {mlit(M)} {qlit(inp['c'])}" for p in inp["patterns"][:2]) + ")")
         ctx.violation(f"correspondence/tags{tags}",
                       f"model and implementation disagree (fields {tags}: 1 to_upper_triangular, 2 to_symmetric, 3 container fields, "
-                      "4-6 evaluate_QUBO of M/U/S, 7-9 container evaluators); the property oracle found no failing input on this case",
+                      "4-6 evaluate_QUBO of M/U/S, 7-9 container evaluators, 10 their number); the property oracle found no failing input on this case",
                       jsonable({"correspondence": "Qubo.check_c13case", "input": {k: inp[k] for k in ("kind", "variant", "integer", "M", "c", "patterns")},
                                 "implementation": {"upper": obs["upper"], "sym": obs["sym"], "containers": [(p, o) for p, o, _ in obs["conts"]]},
                                 "model": model}), False)
